@@ -177,6 +177,9 @@ VIS_FORMS = {
     "from_import": ("from lib import {N}", "{USE}"),
     "from_import_alias": ("from lib import {N} as renamed", "{USE_RENAMED}"),
     "from_nested": ("from pkg.lib import {N}", "{USE}"),
+    "import_item": ("import lib::{N}", "{USE}"),
+    "import_item_alias": ("import lib::{N} as renamed", "{USE_RENAMED}"),
+    "import_item_nested": ("import pkg::lib::{N}", "{USE}"),
 }
 
 
@@ -185,12 +188,12 @@ def visibility_cases():
     for kind, (decl, use) in ITEMS.items():
         name = "ITEM" if kind == "const" else ("item" if kind == "function" else "Item")
         for form, (imp, usetpl) in VIS_FORMS.items():
-            if kind == "trait" and form == "from_import_alias":
+            if kind == "trait" and form in ("from_import_alias", "import_item_alias"):
                 continue
             u = use
-            if form == "from_import_alias":
+            if form in ("from_import_alias", "import_item_alias"):
                 u = use.replace("Item", "renamed").replace("item(", "renamed(").replace("ITEM", "renamed")
-            libpath = "pkg/lib.incn" if form == "from_nested" else "lib.incn"
+            libpath = "pkg/lib.incn" if form in ("from_nested", "import_item_nested") else "lib.incn"
             if kind == "trait":
                 main = imp.replace("{N}", name) + f"\n\n\n{u}\n\n\ndef main() -> None:\n    pass\n"
             else:
@@ -302,7 +305,7 @@ def run(tier):
         "distinct_nontrivial": len(agree) + len(vis_ok) + len(g_ok),
         "rule": "resolution: project trees (all 12 candidate files for module m; each candidate alone; extension / file-vs-directory conflicts; none) x importer location "
         "(root, d/, d/e/) x 16 import spellings (import / from, :: and . paths, .., super, crate, aliases, item imports), plus the same spellings inside a transitively imported "
-        "module; visibility: 7 item kinds x 3 import forms with pub/non-pub twins through `incan --check`; graphs: import graphs on 3 files (quick: a fifth + all with <= 2 "
+        "module; visibility: 7 item kinds x 6 import forms with pub/non-pub twins through `incan --check`; graphs: import graphs on 3 files (quick: a fifth + all with <= 2 "
         "edges; thorough: all 512) through --check and --emit-rust, and 4 missing-module spellings; non-trivial = cases where CLI and language server agree / twins behave / graph terminated normally",
         "samples": [{"tree": "all_candidates", "entry": "in_d", "spelling": "from_parent_m"}, {"visibility": ["model", "from_import"]}, {"graph_edges": [["a", "b"], ["b", "a"]]}],
         "exhaustive": True,
